@@ -291,6 +291,19 @@ pub fn after_binder_templates() -> Vec<&'static str> {
   ]
 }
 
+/// Templates whose binder is introduced by a context entry whose key is written as a string literal.
+pub fn string_key_templates() -> Vec<&'static str> {
+  vec![
+    "{\"B\": 7, m: B + 1}.m",
+    "{\"B\": 7, m: B * 2 - B}.m",
+    "{\"B\": 7, \"m\": [B, B - 1]}.m",
+    "{\"B\": {k: 7}, m: B.k}.m",
+    "{\"B\": 7, m: (function(q) B * q)(2)}.m",
+    "{\"B\": [1, 2], m: for i in B return i + 1}.m",
+    "{k: 1, \"B\": k + 6, m: if B > 1 then B - 1 else 0}.m",
+  ]
+}
+
 fn num(i: i128) -> Value {
   Value::Number(FeelNumber::from_i128(i))
 }
@@ -509,7 +522,15 @@ pub fn run() {
       let others: Vec<(NameParts, Value, String)> = set.iter().skip(1).cloned().collect();
       for sp in b.spellings() {
         let after = after_binder_templates();
-        for (t, shadow, reads_after) in bt.iter().flat_map(|t| [(t, false, false), (t, true, false)]).chain(after.iter().map(|t| (t, true, true))) {
+        let string_keys = string_key_templates();
+        // (string-literal keys: in the canonical spelling only, the key text is the name)
+        let with_string_keys = sp == b.normal();
+        for (t, shadow, reads_after) in bt
+          .iter()
+          .flat_map(|t| [(t, false, false), (t, true, false)])
+          .chain(after.iter().map(|t| (t, true, true)))
+          .chain(string_keys.iter().filter(|_| with_string_keys).flat_map(|t| [(t, false, true), (t, true, true)]))
+        {
           let text = t.replace('B', &sp).replace('O', &sp);
           // expected: the binder renamed to a fresh single word
           cnt.cases.fetch_add(1, Ordering::Relaxed);
@@ -543,11 +564,11 @@ pub fn run() {
           if !matches!(expected, Value::Null(_)) {
             cnt.nontrivial.fetch_add(1, Ordering::Relaxed);
           }
-          let ok = matches!(&observed, Ok(v) if v.to_string() == expected.to_string());
+          let ok = matches!(&observed, Ok(v) if v.to_string() == expected.to_string() || (matches!(v, Value::Null(_)) && matches!(expected, Value::Null(_))));
           if !ok {
             let names: Vec<String> = others.iter().map(|(n, _, _)| n.normal()).collect();
             run.violation(
-              &format!("binder{}:`{}`:{}:set-of-{}", if reads_after { "-ended-outer-binding-read-again" } else if shadow { "-shadowing-an-outer-binding" } else { "" }, t, symbol_class(b), set.len()),
+              &format!("binder{}:`{}`:{}:set-of-{}", if t.contains("\"B\"") { "-introduced-by-a-string-literal-key" } else if reads_after { "-ended-outer-binding-read-again" } else if shadow { "-shadowing-an-outer-binding" } else { "" }, t, symbol_class(b), set.len()),
               &format!(
                 "`{}` (other bound names {:?}) evaluates to {} but with the introduced name renamed, `{}`, it evaluates to {}",
                 text,
